@@ -482,13 +482,23 @@ func handle(req Request) (rep Reply) {
 			return Reply{Outcome: "error", Msg: "unknown callee"}
 		}
 		fn := mk(req.Recv)
+		// a pool name that occurs twice in one request denotes one object (x op x, f(l, l)): aliasing between operands
+		made := map[string]starlark.Value{}
+		value := func(name string) starlark.Value {
+			if v, ok := made[name]; ok {
+				return v
+			}
+			v := poolValue(name)
+			made[name] = v
+			return v
+		}
 		var args starlark.Tuple
 		for _, a := range req.Args {
-			args = append(args, poolValue(a))
+			args = append(args, value(a))
 		}
 		var kwargs []starlark.Tuple
 		for i, n := range req.KwN {
-			kwargs = append(kwargs, starlark.Tuple{starlark.String(n), poolValue(req.KwV[i])})
+			kwargs = append(kwargs, starlark.Tuple{starlark.String(n), value(req.KwV[i])})
 		}
 		th := &starlark.Thread{Name: "c02", Print: func(*starlark.Thread, string) {}}
 		th.SetMaxExecutionSteps(req.Budget)
@@ -597,6 +607,22 @@ func hasHuge(req Request) bool {
 	return false
 }
 
+// smallOperands: no argument that could legitimately make a built-in work for long or allocate much (huge or deep
+// containers, long strings, counts of 2^31 and more, huge floats). A call on such operands that does not return is a hang.
+func smallOperands(req Request) bool {
+	if req.Kind != "call" {
+		return false
+	}
+	for _, a := range append(append([]string{}, req.Args...), req.KwV...) {
+		switch a {
+		case "range-huge", "l-big", "s-long", "l-deep", "t-nested-deep", "s-json-deep", "i2^31", "i-2^31-1", "i2^62", "i2^63", "i-2^63", "i2^64", "i2^200",
+			"f1e300", "finf", "f-inf", "fnan", "f2^53", "fn-recursive", "l-cyclic", "d-cyclic", "struct-cyclic":
+			return false
+		}
+	}
+	return true
+}
+
 func checkCase(req Request) error {
 	var rep Reply
 	if req.Kind == "call" && slowCallees[req.Callee] && hasHuge(req) {
@@ -616,14 +642,27 @@ func checkCase(req Request) error {
 		var d *vk.Death
 		if errors.As(err, &d) {
 			switch d.Kind {
-			case "timeout":
+			case "timeout", "oom":
+				if smallOperands(req) {
+					// not explained by the size of the operands: once more with a generous limit, then it is a hang
+					var rep2 Reply
+					if err2 := worker.Do(req, &rep2, 60*time.Second); err2 != nil {
+						var d2 *vk.Death
+						if errors.As(err2, &d2) && (d2.Kind == "timeout" || d2.Kind == "oom") {
+							return fmt.Errorf("the call does not return: %s after %v and again after 60 s, with small operands (a built-in that loops without counting steps)", d.Kind, limit)
+						}
+					}
+					vk.S.Class("slow-once-then-returned")
+					return nil
+				}
+				if d.Kind == "oom" {
+					vk.S.Class("excluded:out-of-memory")
+					return nil
+				}
 				vk.S.Timeout()
 				if req.Kind == "call" && hasHuge(req) {
 					slowCallees[req.Callee] = true
 				}
-				return nil
-			case "oom":
-				vk.S.Class("excluded:out-of-memory")
 				return nil
 			case "killed":
 				if strings.Contains(d.Detail, "killed") && !strings.Contains(d.Detail, "goroutine") {
